@@ -467,7 +467,7 @@ def _more_dimensions(cfg, rng, force):
             continue
         f = dict(cfg.get(key) or {})
         if not f.get("mulches") and rng.random() < 0.6: f.update(mulch_pct=rng.choice([30, 80]), f_mulch=rng.choice([0.3, 0.9]))
-        if not f.get("bunds") and rng.random() < 0.6: f.update(z_bund=rng.choice([0.1, 0.3]), bund_water=float(rng.choice([0, 25])))
+        if not f.get("bunds") and rng.random() < 0.6: f.update(z_bund=rng.choice([0.1, 0.3]), bund_water=float(rng.choice([10, 25] if force.get("inert") else [0, 25])))
         if not f.get("curve_number_adj") and rng.random() < 0.6: f["curve_number_adj_pct"] = rng.choice([-30, -10, 15, 40])
         cfg[key] = f or None
 
